@@ -366,6 +366,8 @@ pub struct SealCtx {
     pub rc4: Rc4,
     pub sign_key: [u8; 16],
     pub seq: u32,
+    /// false: NTLMSSP_NEGOTIATE_SEAL was not negotiated — messages are signed but travel in clear (MS-NLMP 3.4.3)
+    pub confidential: bool,
 }
 
 const C2S_SIGN: &[u8] = b"session key to client-to-server signing key magic constant\0";
@@ -378,12 +380,12 @@ impl SealCtx {
     pub fn new(exported: &[u8], client_to_server: bool) -> Self {
         let sign_key = md5(&[exported, if client_to_server { C2S_SIGN } else { S2C_SIGN }].concat());
         let seal_key = md5(&[exported, if client_to_server { C2S_SEAL } else { S2C_SEAL }].concat());
-        SealCtx { rc4: Rc4::new(&seal_key), sign_key, seq: 0 }
+        SealCtx { rc4: Rc4::new(&seal_key), sign_key, seq: 0, confidential: true }
     }
 
     /// MS-NLMP 3.4.3 / 3.4.4.2 with extended session security and key exchange: signature(16) || ciphertext
     pub fn wrap(&mut self, msg: &[u8]) -> Vec<u8> {
-        let ct = self.rc4.apply(msg);
+        let ct = if self.confidential { self.rc4.apply(msg) } else { msg.to_vec() };
         let mac = hmac_md5(&self.sign_key, &[&self.seq.to_le_bytes()[..], msg].concat());
         let chk = self.rc4.apply(&mac[..8]);
         let mut w = W::new();
@@ -406,7 +408,7 @@ impl SealCtx {
         if seq != self.seq {
             return Err(format!("sequence number {} expected {}", seq, self.seq));
         }
-        let pt = self.rc4.apply(r.rest());
+        let pt = if self.confidential { self.rc4.apply(r.rest()) } else { r.rest().to_vec() };
         let mac = hmac_md5(&self.sign_key, &[&seq.to_le_bytes()[..], &pt[..]].concat());
         let want = self.rc4.apply(&mac[..8]);
         if want != chk {
